@@ -104,6 +104,7 @@ class Program:
         self.root = os.path.abspath(root)
         self.units: Dict[str, Unit] = {}
         self.functions: Dict[str, FuncInfo] = {}
+        self.lambda_quals: Dict[int, str] = {}
         self.classes: Dict[str, ClassInfo] = {}
         # per module: name -> binding
         #   ('class', qual) ('func', qual) ('module', dotted) ('ext', dotted) ('var', modname, name)
@@ -242,6 +243,16 @@ class Program:
                         for n in ast.walk(t):
                             if isinstance(n, ast.Name):
                                 b[n.id] = ("var", modname, n.id)
+                    # lambdas kept in a module-level table (dispatch tables): each becomes a function of its own, so that the
+                    # rules see `lambda v: f(v)` exactly as they see `def _h(v): return f(v)`
+                    for lam in [x for x in ast.walk(s.value) if isinstance(x, ast.Lambda)]:
+                        q = "%s.<lambda@%d:%d>" % (modname, lam.lineno, lam.col_offset)
+                        fd = ast.FunctionDef(name="<lambda@%d:%d>" % (lam.lineno, lam.col_offset), args=lam.args,
+                                             body=[ast.copy_location(ast.Return(value=lam.body), lam.body)], decorator_list=[], returns=None, type_comment=None, type_params=[])
+                        ast.copy_location(fd, lam)
+                        ast.fix_missing_locations(fd)
+                        self.lambda_quals[id(lam)] = q
+                        index_function(fd, q)
                 elif isinstance(s, (ast.AnnAssign, ast.AugAssign)):
                     if isinstance(s.target, ast.Name):
                         b.setdefault(s.target.id, ("var", modname, s.target.id))
